@@ -333,6 +333,39 @@ def check_case(case, ctx):
             ctx.violation("dict.model", f"built profile: {r}", case)
             return
         ctx.ok(fp=text, case={"op": "builder", "text": text}, classes=tuple({f"builder:{n[1]}" for n in nodes}))
+    elif op == "kwargs":
+        # the keyword-argument forms of the builder classes and the list-based helper constructors
+        ctx.mon("builder.equal")
+        v = case["vals"]
+        text = (
+            f'set sleeptime "{v[0]}";\nset jitter "{v[1]}";\n'
+            f'http-get {{\n set uri "{v[2]}";\n set verb "{v[3]}";\n client {{\n  header "{v[4]}" "{v[5]}";\n  parameter "{v[6]}" "{v[7]}";\n'
+            f'  metadata {{\n   base64url;\n   prepend "{v[8]}";\n   header "{v[9]}";\n  }}\n }}\n server {{\n  header "{v[4]}" "{v[5]}";\n  output {{\n   mask;\n   print;\n  }}\n }}\n}}\n'
+            f'process-inject {{\n set min_alloc "{v[10]}";\n execute {{\n  CreateThread "{v[11]}";\n  NtQueueApcThread-s;\n  SetThreadContext;\n  CreateRemoteThread "{v[11]}";\n  RtlCreateUserThread;\n }}\n}}\n'
+            f'stage {{\n set userwx "{v[12]}";\n transform-x86 {{\n  prepend "{v[8]}";\n  strrep "{v[4]}" "{v[5]}";\n }}\n}}\n'
+        )
+        try:
+            parsed = c2p.C2Profile.from_text(text)
+            client = c2p.HttpOptionsBlock(header=[(v[4], v[5])], parameter=[(v[6], v[7])],
+                                          metadata=c2p.DataTransformBlock(steps=["base64url", ("prepend", v[8]), ("header", v[9])]))
+            server = c2p.HttpOptionsBlock(header=[(v[4], v[5])], output=c2p.DataTransformBlock(steps=["mask", "print"]))
+            pinj = c2p.ProcessInjectBlock(min_alloc=v[10], execute=c2p.ExecuteOptionsBlock.from_execute_list(
+                [("CreateThread", v[11]), "NtQueueApcThread-s", "SetThreadContext", ("CreateRemoteThread", v[11]), "RtlCreateUserThread"]))
+            stage = c2p.StageBlock(userwx=v[12], transform_x86=c2p.StageTransformBlock(prepend=v[8], strrep=[(v[4], v[5])]))
+            built = c2p.C2Profile(sleeptime=v[0], jitter=v[1], http_get=c2p.HttpGetBlock(uri=v[2], verb=v[3], client=client, server=server),
+                                  process_inject=pinj, stage=stage)
+            same = built.tree == parsed.tree and built.as_text() == parsed.as_text() and built.as_dict() == parsed.as_dict()
+        except Exception as e:  # noqa: BLE001
+            ctx.violation("builder.equal", f"keyword-argument builder forms: {type(e).__name__}: {str(e)[:300]}", case)
+            return
+        if not same:
+            ctx.violation("builder.equal", f"profile built with keyword arguments differs from the parsed text:\n{built.as_text()[:500]}\n--- parsed ---\n{parsed.as_text()[:500]}", case)
+            return
+        d = built.as_dict()
+        if d.get("http-get.client.metadata") != ["base64url", ("prepend", v[8].encode()), ("header", v[9].encode())] or d.get("sleeptime") != [v[0]]:
+            ctx.violation("dict.model", f"kwargs-built profile: dictionary {d}", case)
+            return
+        ctx.ok(fp=("kwargs", tuple(v)), case=case, classes=("builder:kwargs",))
     elif op == "gate":
         ctx.mon("builder.equal")
         names = case["names"]
@@ -408,6 +441,8 @@ def run_shard(shard, ctx):
                 break
             check_case({"op": "builder", "program": gen_program(rng)}, ctx)
     elif kind == "gate":
+        for _ in range(12):
+            check_case({"op": "kwargs", "vals": [_val(rng) or "x" for _ in range(13)]}, ctx)
         names = [_kws(a)[0] for a in LANG["beacon_gate_options"]]
         for n in names:
             check_case({"op": "gate", "names": [n]}, ctx)
